@@ -164,6 +164,8 @@ enum GCTask {
         keep: u32,
     },
     Drain(tokio::sync::oneshot::Sender<()>),
+    #[cfg(xs_verif)]
+    Shutdown,
 }
 
 #[derive(Clone)]
@@ -200,6 +202,11 @@ impl Store {
             .unwrap();
 
         let (broadcast_tx, _) = broadcast::channel(1024);
+        #[cfg(xs_verif)]
+        let broadcast_tx: broadcast::Sender<Frame> = match crate::verif::knob("broadcast.cap", 1024) {
+            1024 => broadcast_tx,
+            n => broadcast::channel(n).0,
+        };
         let (gc_tx, gc_rx) = mpsc::unbounded_channel();
 
         let mut contexts = HashSet::new();
@@ -238,6 +245,12 @@ impl Store {
     #[tracing::instrument(skip(self))]
     pub async fn read(&self, options: ReadOptions) -> tokio::sync::mpsc::Receiver<Frame> {
         let (tx, rx) = tokio::sync::mpsc::channel(100);
+        #[cfg(xs_verif)]
+        let (tx, rx): (mpsc::Sender<Frame>, mpsc::Receiver<Frame>) =
+            match crate::verif::knob("read.cap", 100) {
+                100 => (tx, rx),
+                n => mpsc::channel(n),
+            };
 
         let should_follow = matches!(
             options.follow,
@@ -253,6 +266,9 @@ impl Store {
             None
         };
 
+        #[cfg(xs_verif)]
+        crate::verif::apoint("read.subscribed", 0).await;
+
         // Only create done channel if we're doing historical processing
         let done_rx = if !options.tail {
             let (done_tx, done_rx) = tokio::sync::oneshot::channel();
@@ -262,9 +278,19 @@ impl Store {
             let should_follow_clone = should_follow;
             let gc_tx = self.gc_tx.clone();
 
+            #[cfg(xs_verif)]
+            crate::verif::expect_thread("history");
             // Spawn OS thread to handle historical events
             std::thread::spawn(move || {
                 let mut last_id = None;
+                #[cfg(xs_verif)]
+                let _verif_scope = crate::verif::thread_scope("history");
+                // locals are dropped before the scope guard, captured variables after it
+                #[cfg(xs_verif)]
+                let (tx_clone, store, options, gc_tx, done_tx) =
+                    (tx_clone, store, options, gc_tx, done_tx);
+                #[cfg(xs_verif)]
+                crate::verif::point("hist.scan", 0);
                 let mut count = 0;
 
                 for frame in store.iter_frames(options.context_id, options.last_id.as_ref()) {
@@ -283,12 +309,20 @@ impl Store {
                         }
                     }
 
+                    #[cfg(xs_verif)]
+                    crate::verif::point_if("hist.deliver", frame.id.to_u128(), &|| {
+                        tx_clone.capacity() > 0 || tx_clone.is_closed()
+                    });
                     if tx_clone.blocking_send(frame).is_err() {
                         return;
                     }
                     count += 1;
                 }
 
+                #[cfg(xs_verif)]
+                crate::verif::point_if("hist.scanned", 0, &|| {
+                    tx_clone.capacity() > 0 || tx_clone.is_closed()
+                });
                 // Send threshold message if following and no limit
                 if should_follow_clone && options.limit.is_none() {
                     let threshold =
@@ -296,11 +330,18 @@ impl Store {
                             .id(scru128::new())
                             .ttl(TTL::Ephemeral)
                             .build();
+                    #[cfg(xs_verif)]
+                    let threshold = match crate::verif::new_id() {
+                        Some(id) => Frame { id, ..threshold },
+                        None => threshold,
+                    };
                     if tx_clone.blocking_send(threshold).is_err() {
                         return;
                     }
                 }
 
+                #[cfg(xs_verif)]
+                crate::verif::point("hist.done", 0);
                 // Signal completion with the last seen ID and count
                 let _ = done_tx.send((last_id, count));
             });
@@ -327,7 +368,11 @@ impl Store {
                     };
 
                     let mut broadcast_rx = broadcast_rx;
+                    #[cfg(xs_verif)]
+                    crate::verif::apoint("live.start", 0).await;
                     while let Ok(frame) = broadcast_rx.recv().await {
+                        #[cfg(xs_verif)]
+                        crate::verif::apoint("live.recv", frame.id.to_u128()).await;
                         // Skip frames that do not match the context_id
                         if let Some(context_id) = options.context_id {
                             if frame.context_id != context_id {
@@ -367,6 +412,11 @@ impl Store {
                                 .id(scru128::new())
                                 .ttl(TTL::Ephemeral)
                                 .build();
+                        #[cfg(xs_verif)]
+                        let frame = match crate::verif::new_id() {
+                            Some(id) => Frame { id, ..frame },
+                            None => frame,
+                        };
                         if heartbeat_tx.send(frame).await.is_err() {
                             break;
                         }
@@ -415,6 +465,8 @@ impl Store {
 
     #[tracing::instrument(skip(self), fields(id = %id.to_string()))]
     pub fn remove(&self, id: &Scru128Id) -> Result<(), crate::error::Error> {
+        #[cfg(xs_verif)]
+        crate::verif::point("remove.enter", id.to_u128());
         let Some(frame) = self.get(id) else {
             // Already deleted
             return Ok(());
@@ -489,7 +541,15 @@ impl Store {
     }
 
     pub fn append(&self, mut frame: Frame) -> Result<Frame, crate::error::Error> {
+        #[cfg(xs_verif)]
+        crate::verif::point("append.enter", 0);
         frame.id = scru128::new();
+        #[cfg(xs_verif)]
+        if let Some(id) = crate::verif::new_id() {
+            frame.id = id;
+        }
+        #[cfg(xs_verif)]
+        crate::verif::point("append.id", frame.id.to_u128());
 
         // Special handling for xs.context registration
         if frame.topic == "xs.context" {
@@ -512,6 +572,8 @@ impl Store {
         // only store the frame if it's not ephemeral
         if frame.ttl != Some(TTL::Ephemeral) {
             self.insert_frame(&frame)?;
+            #[cfg(xs_verif)]
+            crate::verif::point("append.committed", frame.id.to_u128());
 
             // If this is a Head TTL, schedule a gc task
             if let Some(TTL::Head(n)) = frame.ttl {
@@ -524,6 +586,8 @@ impl Store {
         }
 
         let _ = self.broadcast_tx.send(frame.clone());
+        #[cfg(xs_verif)]
+        crate::verif::point("append.broadcast", frame.id.to_u128());
         Ok(frame)
     }
 
@@ -573,8 +637,48 @@ impl Store {
     }
 }
 
+#[cfg(xs_verif)]
+impl Store {
+    /// Force every partition's memtable to be flushed to a segment (rotates the journal).
+    pub fn verif_flush(&self) -> Result<(), crate::error::Error> {
+        self.frame_partition.rotate_memtable_and_wait()?;
+        self.idx_topic.rotate_memtable_and_wait()?;
+        self.idx_context.rotate_memtable_and_wait()?;
+        Ok(())
+    }
+
+    pub fn verif_segment_count(&self) -> usize {
+        self.frame_partition.segment_count()
+            + self.idx_topic.segment_count()
+            + self.idx_context.segment_count()
+    }
+
+    pub fn verif_journal_count(&self) -> usize {
+        self.keyspace.journal_count()
+    }
+
+    /// Ask the gc worker to exit so that the last `Store` clone can be dropped.
+    pub fn verif_shutdown(&self) {
+        let _ = self.gc_tx.send(GCTask::Shutdown);
+    }
+
+    pub fn verif_gc_send_drain(&self) -> tokio::sync::oneshot::Receiver<()> {
+        let (tx, rx) = tokio::sync::oneshot::channel();
+        let _ = self.gc_tx.send(GCTask::Drain(tx));
+        rx
+    }
+}
+
 fn spawn_gc_worker(mut gc_rx: UnboundedReceiver<GCTask>, store: Store) {
+    #[cfg(xs_verif)]
+    crate::verif::expect_thread("gc");
     std::thread::spawn(move || {
+        #[cfg(xs_verif)]
+        let _verif_scope = crate::verif::thread_scope("gc");
+        #[cfg(xs_verif)]
+        let (mut gc_rx, store) = (gc_rx, store);
+        #[cfg(xs_verif)]
+        crate::verif::point_if("gc.idle", 0, &|| !gc_rx.is_empty() || gc_rx.is_closed());
         while let Some(task) = gc_rx.blocking_recv() {
             match task {
                 GCTask::Remove(id) => {
@@ -598,6 +702,8 @@ fn spawn_gc_worker(mut gc_rx: UnboundedReceiver<GCTask>, store: Store) {
                         .collect();
 
                     for frame_id in frames_to_remove {
+                        #[cfg(xs_verif)]
+                        crate::verif::point("gc.evict", frame_id.to_u128());
                         let _ = store.remove(&frame_id);
                     }
                 }
@@ -605,7 +711,11 @@ fn spawn_gc_worker(mut gc_rx: UnboundedReceiver<GCTask>, store: Store) {
                 GCTask::Drain(tx) => {
                     let _ = tx.send(());
                 }
+                #[cfg(xs_verif)]
+                GCTask::Shutdown => break,
             }
+            #[cfg(xs_verif)]
+            crate::verif::point_if("gc.idle", 0, &|| !gc_rx.is_empty() || gc_rx.is_closed());
         }
     });
 }
@@ -617,6 +727,8 @@ fn is_expired(id: &Scru128Id, ttl: &Duration) -> bool {
         .duration_since(std::time::UNIX_EPOCH)
         .unwrap()
         .as_millis() as u64;
+    #[cfg(xs_verif)]
+    let now_ms = crate::verif::now_ms().unwrap_or(now_ms);
 
     now_ms >= expires_ms
 }
